@@ -511,6 +511,14 @@ func GenCrawl(t *Tape, o CrawlOpts) *Scenario {
 			break
 		}
 	}
+	if (o.Prop == "C01" || o.Filters) && !o.NoBadSeeds && c.Chance(1, 4) {
+		// an include filter that every generated origin passes (IP-literal hosts) and seeds that miss it:
+		// such a seed is never fetched, and still has to be finished exactly once
+		cfg.IncludeString = []string{"://10."}
+		for i := 0; i < 1+c.N(2); i++ {
+			g.Sc.Queue = append(g.Sc.Queue, c.row("http://outside"+fmt.Sprint(c.Uid())+".example/"+c.Name("oos")))
+		}
+	}
 	for i := 0; i < o.ManyHosts; i++ {
 		h := c.Host()
 		p := "/" + c.Name("limited")
